@@ -91,8 +91,9 @@ DECIDED = {
             "classifier on all 32-byte blocks; ESCAPED_TAB; the skip-only decoder end to end (scalar <= 8, block path by window); the "
             "borrowed branch of the borrow-or-copy decoder."),
     "C10": ("Skippers reduced to contracts, walkers proved against the reference lookup given those contracts: escaped-bit kernels for "
-            "all inputs; the zero-padded tail of the bitmap container skipper on all buffers <= 8 (one 64-byte step from an arbitrary carry "
-            "state by 16-byte windows in the thorough tier); the trusting string skipper on every well-formed literal <= 8 and across a "
+            "all inputs; the zero-padded tail of the bitmap container skipper on all buffers <= 8; one 64-byte step from an arbitrary carry "
+            "state with the first three bytes of the block symbolic (what a pending escape / open string carried in does to a block "
+            "without backslashes; quick) and by 16-byte windows at offsets 0/16/32/48 (thorough); the trusting string skipper on every well-formed literal <= 8 and across a "
             "32-byte block edge (carry between blocks, and from the block loop into the scalar tail); token search (scalar and block path); "
             "checked array/object walkers + final skip == reference lookup (first duplicate wins, span exact, not-found only for a missing "
             "key/index) for every nested recogniser E; prefix_xor native == fallback."),
